@@ -33,6 +33,10 @@ def e(key: bytes, data: bytes) -> bytes:
     return encryptor.update(data[::-1])[::-1]
 
 
+# Prime of the field over which the P-256 curve is defined
+_SECP256R1_P = 0xFFFFFFFF00000001000000000000000000000000FFFFFFFFFFFFFFFFFFFFFFFF
+
+
 class EccKey:
     def __init__(self, private_key: ec.EllipticCurvePrivateKey) -> None:
         self.private_key = private_key
@@ -65,6 +69,10 @@ class EccKey:
     def dh(self, public_key_x: bytes, public_key_y: bytes) -> bytes:
         x = int.from_bytes(public_key_x, byteorder='big', signed=False)
         y = int.from_bytes(public_key_y, byteorder='big', signed=False)
+        # The coordinates must be field elements: the library would reduce larger
+        # values instead of rejecting them
+        if x >= _SECP256R1_P or y >= _SECP256R1_P:
+            raise ValueError('public key is not a point on the curve')
         return self.private_key.exchange(
             ec.ECDH(),
             ec.EllipticCurvePublicNumbers(x, y, ec.SECP256R1()).public_key(),
